@@ -140,6 +140,8 @@ def check(ctx: Ctx) -> None:
     check_block_loops_cover(ctx, 'C03.k', [FA], floor=3)
     from ..idioms import check_flag_tests_agree
     check_flag_tests_agree(ctx, 'C03.l', [FA, SU, MU], floor=1)
+    from ..idioms import check_accumulators_initialised
+    check_accumulators_initialised(ctx, 'C03.m', [FA, SU, MU], floor=4)
     # ------------------------------------------------------------------ C03.a
     ctx.rule('C03.a', 'slice length is not floor(span/step)', floor=1)
     fn = M.func(FA, 'TdlChannel.corrupt_data_in_freq_domain')
@@ -513,6 +515,9 @@ def synthetic():
 
 _CD = 'TdlChannel.corrupt_data'
 MUTANTS = [
+    Mutant('siso-accumulator-created-with-empty', FA, 'TdlChannel.corrupt_data',
+           [('replace', 'output = np.zeros(num_symbols + channel_memory, dtype=complex)', 'output = np.empty(num_symbols + channel_memory, dtype=complex)')],
+           r'C03\.m:TdlChannel\.corrupt_data:empty-accumulator:output'),
     Mutant('flat-fading-fast-path-drops-the-delay', FA, 'TdlChannel.corrupt_data',
            [('regex', r'(if len\(self\._fading_generator\.shape\) == 1:\n)', r'\1        if self.num_taps == 1:\n            return tap_values_sparse[0] * signal\n')],
            r'C03\.j:TdlChannel\.corrupt_data:return-without-delays'),
